@@ -3,6 +3,9 @@ package main
 import "golang.org/x/tools/go/ssa"
 
 func (e *Engine) harnessAPI2(name string, args []Value, fn *ssa.Function) (Value, bool) {
+	if r, ok := e.nodeAPI(name, args); ok {
+		return r, true
+	}
 	switch name {
 	case "vRegister", "vLoadReplay", "vName", "vLookup", "vToBig":
 		return nil, true
@@ -33,6 +36,168 @@ func (e *Engine) harnessAPI2(name string, args []Value, fn *ssa.Function) (Value
 		r := e.hashOf(h, e.bytesRope(args[1].(BytesV)))
 		e.primLog = e.primLog[:n]
 		return e.bytesFromRope(r), true
+	}
+	return nil, false
+}
+
+// ---- CBOR tree API ------------------------------------------------------------------------------
+
+func (e *Engine) nodeVal(n *Node) Value {
+	if n == nil {
+		return PtrV{}
+	}
+	if e.nodeCells == nil {
+		e.nodeCells = map[*Node]*Cell{}
+	}
+	c, ok := e.nodeCells[n]
+	if !ok {
+		c = e.newCell(OpaqueV{kind: "node", data: n}, "cbor node")
+		e.nodeCells[n] = c
+	}
+	return PtrV{cell: c}
+}
+
+func (e *Engine) nodeOf(v Value) *Node {
+	p, ok := v.(PtrV)
+	if !ok || p.isNil() {
+		e.goPanic("nil *vNodeT dereference in harness")
+	}
+	return p.cell.val.(OpaqueV).data.(*Node)
+}
+
+func (e *Engine) widthArg(v Value, arg *Term) *Term {
+	t := v.(*Term)
+	// -1 = minimal
+	if t.isConst() && t.i64() == -1 {
+		return nil
+	}
+	return e.tt.Extract(t, 7, 0)
+}
+
+func (e *Engine) sliceNodes(v Value) []*Node {
+	s := v.(SliceV)
+	var out []*Node
+	for i := 0; i < s.n; i++ {
+		out = append(out, e.nodeOf(s.obj.elems[s.off+i]))
+	}
+	return out
+}
+
+func (e *Engine) nodeAPI(name string, args []Value) (Value, bool) {
+	tt := e.tt
+	switch name {
+	case "vWidth":
+		n := e.freshName(e.argStr(args[0]))
+		w := tt.Var(n, 64)
+		e.nondets = append(e.nondets, &Nondet{Name: n, Kind: "int64", Term: w})
+		e.addPC(tt.Cmp("bvule", w, e.c64(8)))
+		e.addPC(e.widthLegal(tt.Extract(w, 7, 0), args[1].(*Term)))
+		return w, true
+	case "vMinWidth":
+		return tt.ZExt(e.minWidth(args[0].(*Term)), 64), true
+	case "nnInt":
+		maj := e.argInt(args[0])
+		n := e.newNode(maj, args[1].(*Term))
+		n.wvar = e.widthArg(args[2], n.arg)
+		return e.nodeVal(n), true
+	case "nnBstr":
+		b := args[0].(BytesV)
+		n := e.newNode(2, b.n)
+		n.content = e.bytesRope(b)
+		n.wvar = e.widthArg(args[1], n.arg)
+		return e.nodeVal(n), true
+	case "nnTstr":
+		s := args[0].(StrV)
+		n := e.newNode(3, e.ropeLen(s.r))
+		n.content = s.r
+		n.wvar = e.widthArg(args[1], n.arg)
+		return e.nodeVal(n), true
+	case "nnArray", "nnMap":
+		kids := e.sliceNodes(args[0])
+		maj, cnt := 4, len(kids)
+		if name == "nnMap" {
+			maj, cnt = 5, len(kids)/2
+		}
+		n := e.newNode(maj, e.c64(uint64(cnt)))
+		n.kids = kids
+		n.wvar = e.widthArg(args[1], n.arg)
+		return e.nodeVal(n), true
+	case "nnTag":
+		n := e.newNode(6, args[0].(*Term))
+		n.kids = []*Node{e.nodeOf(args[1])}
+		n.wvar = e.widthArg(args[2], n.arg)
+		return e.nodeVal(n), true
+	case "nnSimple":
+		n := e.newNode(7, args[0].(*Term))
+		n.wvar = e.widthArg(args[1], n.arg)
+		return e.nodeVal(n), true
+	case "nnIndef":
+		o := e.nodeOf(args[0])
+		c := *o
+		e.nextObj++
+		c.id = e.nextObj
+		c.indef = true
+		return e.nodeVal(&c), true
+	case "nnEmbed":
+		return e.nodeVal(e.rawNode(e.bytesRope(args[0].(BytesV)))), true
+	case "vSer":
+		b := e.bytesFromRope(Rope{SegItem{e.nodeOf(args[0])}})
+		b.obj.tag = "input"
+		return b, true
+	case "vParse":
+		r := e.bytesRope(args[0].(BytesV))
+		if e.branch(tt.Eq(e.ropeLen(r), e.c64(0))) {
+			return PtrV{}, true
+		}
+		n, rest, perr := e.parseOne(r)
+		if perr != "" {
+			return PtrV{}, true
+		}
+		if !e.branch(tt.Eq(e.ropeLen(rest), e.c64(0))) {
+			return PtrV{}, true
+		}
+		return e.nodeVal(e.derefRaw(n)), true
+	case "nMajor":
+		return e.c64(uint64(e.derefRaw(e.nodeOf(args[0])).major)), true
+	case "nArg":
+		return e.derefRaw(e.nodeOf(args[0])).arg, true
+	case "nWidth":
+		return tt.ZExt(e.nodeWidth(e.derefRaw(e.nodeOf(args[0]))), 64), true
+	case "nIsIndef":
+		return tt.Bool(e.derefRaw(e.nodeOf(args[0])).indef), true
+	case "nMinimal":
+		n := e.derefRaw(e.nodeOf(args[0]))
+		if n.indef {
+			return tt.Bool(false), true
+		}
+		if n.wvar == nil {
+			return tt.Bool(true), true
+		}
+		return tt.Eq(n.wvar, e.minWidth(n.arg)), true
+	case "nLen":
+		n := e.derefRaw(e.nodeOf(args[0]))
+		if n.major == 5 {
+			return e.c64(uint64(len(n.kids) / 2)), true
+		}
+		return e.c64(uint64(len(n.kids))), true
+	case "nChild", "nKey", "nVal":
+		n := e.derefRaw(e.nodeOf(args[0]))
+		e.resolveOrder(n)
+		i := e.argInt(args[1])
+		if name == "nKey" {
+			i = 2 * i
+		} else if name == "nVal" {
+			i = 2*i + 1
+		}
+		if i < 0 || i >= len(n.kids) {
+			e.goPanic("harness: node child index out of range")
+		}
+		return e.nodeVal(e.derefRaw(n.kids[i])), true
+	case "nBytes":
+		n := e.derefRaw(e.nodeOf(args[0]))
+		return e.bytesFromRope(n.content), true
+	case "nRaw":
+		return e.bytesFromRope(Rope{SegItem{e.nodeOf(args[0])}}), true
 	}
 	return nil, false
 }
